@@ -15,7 +15,7 @@ from ..symx import explore, Violation, PathAbort, SymReal, Inconclusive
 from ..run import Check, run_jobs, src_hash
 
 PID = 'C11'
-OPS = ['next', 'send', 'pause', 'resume', 'stop', 'reset']
+OPS = ['next', 'send', 'pause', 'resume', 'stop', 'reset', 'play']
 BEHAV = ['yield-num', 'yield-obj', 'return', 'raise', 'yield-and-reset', 'always-yield', 'self-stop', 'self-pause',
          'self-reset', 'nested', 'nested-stops-caller']
 
@@ -125,6 +125,8 @@ def routine_scenario(ctx, nops, first):
                 res = r.next()
             elif op == 'send':
                 res = r.next(sendv)
+            elif op == 'play':
+                r.play(clk.SystemClock)       # only queues the routine on the (NRT) clock; the scheduler is not run here
             else:
                 getattr(r, op)()
         except (PathAbort, Inconclusive, Violation):
@@ -214,6 +216,8 @@ def routine_scenario(ctx, nops, first):
                 ref.state = 'Paused'
             elif op == 'resume' and ref.state == 'Paused':
                 ref.state = 'Suspended'
+            elif op == 'play' and ref.state in ('Init', 'Paused'):
+                ref.state = 'Suspended'       # a finished, running or already playing routine is left alone
             elif op == 'stop':
                 ref.state = 'Done'
                 ref.stale_terminal = ref.terminal is not None
@@ -233,7 +237,7 @@ def routine_scenario(ctx, nops, first):
     return {'history': list(hist)}
 
 
-COPS = ['play-waiter', 'signal', 'test-true', 'test-false', 'unhang', 'run']
+COPS = ['play-waiter', 'signal', 'test-true', 'test-false', 'unhang', 'run', 'late-unhang']
 
 
 def condition_scenario(ctx, nops, flowvar):
@@ -249,11 +253,12 @@ def condition_scenario(ctx, nops, flowvar):
     waiters = []          # dicts: resumed count, allowed (reference: may it resume?)
     test = False
     pending_wake = []     # waiters signalled (reference), to be resumed by the next scheduler run
+    helpers = [0]
     try:
         for i in range(nops):
             op = COPS[ctx.choose(f'op{i}', len(COPS))]
-            if flowvar and op in ('test-true', 'test-false', 'unhang'):
-                op = {'test-true': 'set-value', 'test-false': 'signal', 'unhang': 'run'}[op]
+            if flowvar and op in ('test-true', 'test-false', 'unhang', 'late-unhang'):
+                op = {'test-true': 'set-value', 'test-false': 'signal', 'unhang': 'run', 'late-unhang': 'run'}[op]
             hist.append([op])
             if op == 'play-waiter':
                 if len(waiters) >= 2:
@@ -274,7 +279,9 @@ def condition_scenario(ctx, nops, flowvar):
                         while tt.parent is not None and tt.parent is not main.main_tt:
                             tt = tt.parent
                         w['under'] = tt
+                        w['resume_t'] = clk.SystemClock.seconds
                         yield 1
+                        w['after'] = clk.SystemClock.seconds       # a later signal / unhang must not wake it early
                     return body
                 body = mk_body(w)
                 # the wait may be reached several routines deep (the routine playing on the clock embeds a routine
@@ -322,8 +329,21 @@ def condition_scenario(ctx, nops, flowvar):
                 for w in waiters:
                     if w['state'] == 'waiting':
                         w['state'] = 'signalled'
+            elif op == 'late-unhang':
+                # a helper routine releases the condition half a second from now (while a waiter resumed earlier
+                # may be sleeping in its own `yield 1`: it must not be touched again)
+                if helpers[0]:
+                    raise PathAbort('one helper at a time')
+
+                def helper():
+                    yield 0.5
+                    cond.unhang()
+                stm.Routine(helper).play(clk.SystemClock)
+                helpers[0] = 1
             elif op == 'run':
                 main._clock_scheduler.run()
+                late = helpers[0]
+                helpers[0] = 0
                 for w in waiters:
                     if w['state'] == 'scheduled':
                         # the routine reaches its wait: it queues if the test is false, otherwise it goes on
@@ -332,6 +352,9 @@ def condition_scenario(ctx, nops, flowvar):
                     elif w['state'] == 'signalled':
                         w['state'] = 'done'
                         w['expect'] = 1
+                    if late and w['state'] == 'waiting':
+                        w['state'] = 'done'          # released by the helper during this run
+                        w['expect'] = 1
             for k, w in enumerate(waiters):
                 exp = w.get('expect', 0)
                 if w['resumed'] != exp:
@@ -339,6 +362,10 @@ def condition_scenario(ctx, nops, flowvar):
                                     f'{w["state"]}, history {hist})', None, data('resumed'))
                 if flowvar and w['resumed'] and w['got'] != 42:
                     raise Violation('flow variable delivered a wrong value', None, data('value'))
+                if 'after' in w and w['after'] != w['resume_t'] + 1:
+                    raise Violation(f'waiter {k}, resumed at {w["resume_t"]} and then waiting 1 s, was woken again at '
+                                    f'{w["after"]} by a later signal / unhang although it was no longer waiting on the '
+                                    f'condition (history {hist})', None, data('woken-again'))
                 if w['resumed'] and w.get('under') is not w['routine']:
                     raise Violation(f'waiter {k} (waiting {hist} deep) was resumed through {w.get("under")!r}, not through '
                                     f'the routine that is playing on the clock: that routine stays parked for ever', None,
@@ -349,11 +376,17 @@ def condition_scenario(ctx, nops, flowvar):
         main._clock_scheduler.run()
         for k, w in enumerate(waiters):
             if w['state'] == 'scheduled':
-                exp = 0 if not test else 1
+                exp = 0 if (not test and not helpers[0]) else 1
             elif w['state'] == 'signalled':
+                exp = 1
+            elif w['state'] == 'waiting' and helpers[0]:
                 exp = 1
             else:
                 exp = w.get('expect', 0)
+            if 'after' in w and w['after'] != w['resume_t'] + 1:
+                raise Violation(f'waiter {k}, resumed at {w["resume_t"]} and then waiting 1 s, was woken again at '
+                                f'{w["after"]} by a later signal / unhang although it was no longer waiting on the '
+                                f'condition (history {hist})', None, data('woken-again'))
             if w['resumed'] != exp:
                 raise Violation(f'at the end waiter {k} resumed {w["resumed"]} time(s), expected {exp} (history {hist})',
                                 None, data('resumed'))
